@@ -17,7 +17,7 @@ structure St where
   hist : List (String × List Ver) := []
   asOf : Int := 0
   revoked : List String := []
-  trust : List (String × String) := []
+  trust : TrustStore := []
   lists : List (String × String × List Nat) := []
 
 def optInt (j : Json) (k : String) : Option Int :=
@@ -106,7 +106,7 @@ def envOf (st : St) (op : Json) : Env :=
     statusList := fun url => match st.lists.find? (fun x => x.1 == url) with
       | some (_, purpose, revoked) => some { purpose := purpose, bit := fun i => some (revoked.contains i) }
       | none => none
-    trusted := fun t i => st.trust.contains (t, i)
+    trusted := isTrusted st.trust
     parseDID := lookupTable op "dids"
     didOfURL := lookupTable op "urls" }
 
@@ -140,9 +140,17 @@ def step (st : St) (j : Json) : St × List String :=
     let ls := st.lists.filter (fun x => x.1 != jStr j "url")
     ({ st with lists := if jBool j "available" then (jStr j "url", jStr j "purpose", jNats j "revoked") :: ls else ls }, ["statuslist"])
   | "trust" =>
-    let e := (jStr j "type", jStr j "issuer")
-    let tr := st.trust.filter (fun x => x != e)
-    ({ st with trust := if jBool j "add" then e :: tr else tr }, ["trust"])
+    let tr := if jBool j "add" then addTrust st.trust (jStr j "type") (jStr j "issuer") else removeTrust st.trust (jStr j "type") (jStr j "issuer")
+    ({ st with trust := tr }, ["trust"])
+  | "trustfile" =>
+    -- a (hand-edited) trust file loaded into a fresh config
+    let file : TrustStore := match j.getObjVal? "content" with
+      | .ok (.obj kvs) => kvs.toList.map (fun (t, l) => (t, (match l with | Json.arr a => a.toList | _ => []).filterMap (fun (x : Json) => x.getStr?.toOption)))
+      | _ => []
+    ({ st with trust := loadTrust [] file }, ["trustfile"])
+  | "restart" =>
+    -- the verifier node restarts: its trust store is what the file (written by every Add/RemoveTrust) holds
+    ({ st with trust := loadTrust [] st.trust }, ["restart"])
   | "revoke" =>
     -- the revocation's own verification is C11's subject; here the registered outcome is an input
     if jBool j "registered" then ({ st with revoked := jStr j "id" :: st.revoked }, ["revocation:ok"])
